@@ -483,7 +483,7 @@ def run_task(task) -> dict:
                     res["unconfirmed_sample"] = {"what": desc, "replay": _jsonable(rp)}
 
         explore(fn, on_path, stats=stats, max_paths=task.get("max_paths", 4000),
-                timeout_ms=task.get("timeout_ms", 4000))
+                timeout_ms=task.get("timeout_ms", 4000), time_budget_s=task.get("time_budget_s") or __import__("symx.core", fromlist=["x"]).task_budget())
         res["paths"] = stats.paths
         res["reached"] = reached[0]
         res["stats"] = stats.as_dict()
